@@ -97,7 +97,7 @@ def prepare(tier):
         f['gen_path'] = os.path.join(hdir, os.path.basename(f['path']))
         open(f['gen_path'], 'w').write(src)
         with open(tgt, 'a') as fh:
-            fh.write('\n#[cfg(kani)]\n#[path = "%s"]\nmod %s;\n' % (f['gen_path'], f['mod']))
+            fh.write('\n#[cfg(kani)]\n#[path = "%s"]\npub(crate) mod %s;\n' % (f['gen_path'], f['mod']))
     return work, target, lock, files
 
 
